@@ -209,7 +209,7 @@ def wrap_result(
     global_context: GlobalSynthesisContext,
     context: LocalSynthesisContext,
 ) -> TreeNode:
-    if not is_builtin_class_instance(v):
+    if not is_builtin_class_instance(v) and not isinstance(v, type):
         relabel_nodes_of_trees(v, global_context.grammar)
         v.gengy_synthesis_context = context
     return v
